@@ -233,14 +233,14 @@ theorem scanLimit_eq (limit a : Nat) :
   unfold uriScanLimit rawScanLimit uripostScanLimit jsonlScanLimit
   refine ⟨?_, ?_, ?_, ?_⟩ <;> constructor <;> intro h <;> exact ⟨h.1, h.2⟩
 
-/-- `LoadAmmo` scans with Passes = 1, Limit = 0 (`loadLines`, `Model.C08.loadAmmo`: `scan ⟨0, 1⟩`), restores the
-configured bounds, keeps an ammo exactly when the scan returned one and goes on exactly while the scan returned no
+/-- `LoadAmmo` scans with Passes = 1, Limit = 0 (`loadLines`, `Model.C08.loadAmmo`: `scan ⟨0, 1⟩`; whether the configured
+bounds are restored afterwards does not matter: the preloading provider never scans again), keeps an ammo exactly when the scan returned one and goes on exactly while the scan returned no
 error (`Scan` returns an ammo ⇔ it returns no error ⇔ `SRes.ammo`), and hands every error on but ErrPassLimit -/
 theorem loadAmmo_eq (passes limit : Nat) (r : SRes) :
-    (⟨loadAmmoLimit limit, loadAmmoPasses passes⟩ : Bounds) = ⟨0, 1⟩ ∧ loadAmmoRestores = true ∧
+    (⟨loadAmmoLimit limit, loadAmmoPasses passes⟩ : Bounds) = ⟨0, 1⟩ ∧
     loadStepOf r = ⟨loadAmmoKeeps (decide (r = .ammo)) (decide (r = .ammo)), loadAmmoGoesOn (decide (r = .ammo))⟩ ∧
     loadResOf r = loadAmmoMap r := by
-  refine ⟨rfl, rfl, ?_, rfl⟩
+  refine ⟨rfl, ?_, rfl⟩
   cases r <;> simp [loadStepOf, loadAmmoKeeps, loadAmmoGoesOn]
 
 /-- `Provider.loadAmmo`: a failed LoadAmmo ends `Run` with the context's own error exactly when the context is
